@@ -35,7 +35,7 @@ def model_checks(tier):
 
 
 def cases(tier, seed, info):
-    n = 60 if tier == 'quick' else 1500
+    n = 60 if tier == 'quick' else 6000
     info['directories'] = n
     return [dict(seed=seed * 7001 + k, k=k, nq=10 if tier == 'quick' else 25) for k in range(n)]
 
